@@ -84,6 +84,37 @@ where
            "kept_equal": after == before})
 }
 
+/// several steps on ONE chain object; between steps the public fields may be reassigned from outside
+/// (current_state, target, proposal.next): each step must still obey the rule for the state/target it starts from
+fn seq<S, F>(c: &Value) -> Value
+where
+    S: IntLike + PartialEq + num_traits::Zero + std::fmt::Debug,
+    F: Fl,
+    rand_distr::StandardUniform: rand_distr::Distribution<F>,
+{
+    let tables: Vec<Vec<F>> = arr(c, "lps").iter().map(|t| u64s(t).into_iter().map(F::from_bits64).collect()).collect();
+    let lq: Vec<Vec<F>> = arr(c, "lq").iter().map(|r| u64s(r).into_iter().map(F::from_bits64).collect()).collect();
+    let x0 = us(c, "x");
+    let mut chain = MHMarkovChain::<S, F, _, _>::new(TableTarget { lp: tables[0].clone() }, TableProposal { lq, next: 0 }, vec![S::from_i(x0 as i64)]);
+    let mut out = vec![];
+    for st in arr(c, "steps") {
+        if let Some(x) = st["set_x"].as_u64() {
+            chain.current_state = vec![S::from_i(x as i64)];
+        }
+        if let Some(t) = st["set_target"].as_u64() {
+            chain.target = TableTarget { lp: tables[t as usize].clone() };
+        }
+        chain.proposal.next = us(st, "y");
+        let v = u64f(st, "v");
+        chain.rng = rng_first_output(v);
+        let u = F::draw(&mut rng_first_output(v));
+        let before = chain.current_state[0].to_i();
+        let after = chain.step()[0].to_i();
+        out.push(json!({"before": before, "new": after, "u": u.bits64(), "lnu": u.ln().bits64()}));
+    }
+    json!({"steps": out})
+}
+
 fn lnu<F: Fl>(c: &Value) -> Value {
     let v = u64f(c, "v");
     let u = F::draw(&mut rng_first_output(v));
@@ -102,6 +133,10 @@ pub fn run(c: &Value) -> Value {
         ("step", "f64", "f64") => step::<f64, f64>(c),
         ("step", "f32", "f64") => step::<f32, f64>(c),
         ("step", "f64", "f32") => step::<f64, f32>(c),
+        ("seq", "usize", "f32") => seq::<usize, f32>(c),
+        ("seq", "usize", "f64") => seq::<usize, f64>(c),
+        ("seq", "f64", "f64") => seq::<f64, f64>(c),
+        ("seq", "i32", "f32") => seq::<i32, f32>(c),
         (op, s, f) => panic!("unknown op {op}/{s}/{f}"),
     }
 }
